@@ -226,7 +226,10 @@ def setUpper (cs : List TNode) (p : Param) : List TNode × Bool :=
 def setLowerDo (haveL : Bool) (n : Nat) (cs : List TNode) (p : Param) : List TNode :=
   if !haveL && needLower p then addParens (addLower (numNode .low p.lowerS p.lower) cs)
   else if haveL && !needLower p then
-    (if n = 1 then removeParens (removeLower cs) else removeLower cs)
+    -- fix 6b0a1ad: an upper bound that is still present (it reads INF and was therefore kept) cannot stay
+    -- without a lower bound
+    let c := if hasK .up cs then removeUpper cs else cs
+    (if n = 1 then removeParens (removeLower c) else removeLower c)
   else replaceBound (numNode .low p.lowerS p.lower) cs
 
 /-- step 4: lower bound; `haveL`, `lowtok`, `n` are read before step 3 in Python (step 3 never changes
